@@ -11,7 +11,7 @@ def result_type(rng, types, ast_type):
 class C12(Prop):
     id = 'C12'
     extracted = True      # three-valued connectives / null tests regenerated from the current source (Extracted/EquivC12.lean)
-    quick_cases = 2000
+    quick_cases = 5000
     thorough_cases = 30000
     quick_budget_s = 60
     rule = ('typed tables (1..4 nullable columns over int / double / string / boolean, 0..6 rows, doubles dyadic so float '
